@@ -77,7 +77,7 @@ impl RtpsStatefulReader {
         {
             match self.reliability {
                 ReliabilityKind::BestEffort => {
-                    let expected_seq_num = writer_proxy.available_changes_max() + 1;
+                    let expected_seq_num = writer_proxy.available_changes_max().saturating_add(1);
                     if sequence_number >= expected_seq_num {
                         writer_proxy.received_change_set(sequence_number);
                         if sequence_number > expected_seq_num {
@@ -94,7 +94,7 @@ impl RtpsStatefulReader {
                     }
                 }
                 ReliabilityKind::Reliable => {
-                    let expected_seq_num = writer_proxy.available_changes_max() + 1;
+                    let expected_seq_num = writer_proxy.available_changes_max().saturating_add(1);
                     if sequence_number == expected_seq_num {
                         writer_proxy.received_change_set(sequence_number);
 
@@ -129,13 +129,13 @@ impl RtpsStatefulReader {
         {
             match self.reliability {
                 ReliabilityKind::BestEffort => {
-                    let expected_seq_num = writer_proxy.available_changes_max() + 1;
+                    let expected_seq_num = writer_proxy.available_changes_max().saturating_add(1);
                     if sequence_number >= expected_seq_num {
                         writer_proxy.push_data_frag(data_frag_submessage.clone());
                     }
                 }
                 ReliabilityKind::Reliable => {
-                    let expected_seq_num = writer_proxy.available_changes_max() + 1;
+                    let expected_seq_num = writer_proxy.available_changes_max().saturating_add(1);
                     if sequence_number == expected_seq_num {
                         writer_proxy.push_data_frag(data_frag_submessage.clone());
                     }
